@@ -82,6 +82,10 @@ func VerifC01Box(boxType string, n int, large bool, reader bool) {
 	// known finding C01-largesize-count: decoders that derive an entry count from the box size
 	// assume an 8-byte header, so a 64-bit header makes them read 8 bytes past the body
 	vfy.Known("C01-largesize-count", large && b.Size() == uint64(len(in)) && b.Type() != "mdat" && boxType != "zzzz")
+	// known finding: ssix requires 8 bytes per sub-segment (at least one range) when it checks the count;
+	// with a 64-bit header the slack of 8 bytes lets a sub-segment without ranges through, and the
+	// re-encoded 32-bit-header form is then rejected
+	vfy.Known("C01-ssix-zero-range-subsegment", large && boxType == "ssix")
 	// known finding: an unknown box type with a 64-bit header is written with a 32-bit header
 	// but keeps the size value of the 16-byte form
 	vfy.Known("C01-unknown-largesize", large && boxType == "zzzz")
@@ -90,6 +94,10 @@ func VerifC01Box(boxType string, n int, large bool, reader bool) {
 	vfy.Known("C01-unknown-version", vfy.Or(c01FullBox[boxType] && n > 0 && in[hl] >= 2, boxType == "uuid" && n > 16 && in[hl+16] >= 2))
 	// known finding: senc with sample_count 0 followed by further bytes keeps the box size but not the bytes
 	vfy.Known("C01-senc-zero-samples-trailing", boxType == "senc" && n > 8 && vfy.And(vfy.And(in[hl+4] == 0, in[hl+5] == 0), vfy.And(in[hl+6] == 0, in[hl+7] == 0)))
+	// known finding: a decoded trun with data-offset-present and data_offset 0 cannot be encoded
+	// (0 is the library's "not set" sentinel)
+	vfy.Known("C01-trun-zero-data-offset", boxType == "trun" && n >= 12 && vfy.And(in[hl+3]&1 == 1,
+		vfy.And(vfy.And(in[hl+8] == 0, in[hl+9] == 0), vfy.And(in[hl+10] == 0, in[hl+11] == 0))))
 	out, err := encodeEither(b, reader)
 	vfy.Assert(err == nil, "re-encoding a decoded box succeeds")
 	if err != nil {
